@@ -158,6 +158,15 @@ def replay_in_fresh_process(pid, path):
 
 def do_replay(prop, path):
     j = json.load(open(path))
+    if j.get("engine") == "B2":
+        from . import b2
+        msg = b2.replay(path)
+        if msg:
+            print("replay (engine B2): fails again: %s" % msg[:600])
+            print("VIOLATION property=%s replay=%s" % (prop.ID, path))
+            return 1
+        print("replay (engine B2): no violation reproduced")
+        return 0
     out = run_case_inproc(prop, j["case"])
     hit = [v for v in out["violations"] if v["clause"] == j["clause"]]
     if hit:
@@ -302,6 +311,15 @@ def run_batch(pid, tier, seed, workers=16, max_cases=None):
                         os.unlink(p_)
                     except OSError:
                         pass
+    b2_summary = None
+    if getattr(prop, "ENGINE_B2", False):
+        from . import b2
+        b2_summary, b2_viols = b2.run(tier, seed, pid, REPLAYS, workers)
+        for bv in b2_viols[:1]:
+            print("violation (engine B2): clause=%s %s" % (bv["clause"], bv["message"][:1500]))
+            lines.append("VIOLATION property=%s replay=%s" % (pid, bv["replay"]))
+            reported.add("B2:" + bv["clause"])
+            rc = 1
     for k, h in sorted(known_hits.items()):
         print("KNOWN-FINDING: property=%s %s [%s; %d case(s) this run]" % (pid, h["finding"]["text"], k, h["n"]))
     for l in lines:
@@ -336,6 +354,7 @@ def run_batch(pid, tier, seed, workers=16, max_cases=None):
             "known_findings_hit": {k: h["n"] for k, h in known_hits.items()},
             "unreproduced_anomalies": anomalies,
             "violating_cases": len(new),
+            **({"engine_b2_shuttle": b2_summary} if b2_summary else {}),
         },
         "assumptions": getattr(prop, "ASSUMPTIONS", []),
         "wall_s": round(wall, 2),
